@@ -1530,8 +1530,17 @@ class Interp(object):
                 elif isinstance(b, TypeLike) and b.__name__ == 'generic':
                     if isinstance(c, TypeLike) and c.__name__ in ('number', 'integer', 'floating', 'complexfloating', 'bool_', 'generic'):
                         return True              # the numpy scalar types; python's int / float / complex are not
+                elif hasattr(c, 'kind') and hasattr(c, 'itemsize') and isinstance(b, TypeLike):
+                    # a concrete numpy scalar type (float64, complex128, int64, bool) against an abstract one
+                    fam = {'f': ('floating', 'inexact', 'number', 'generic'), 'c': ('complexfloating', 'inexact', 'number', 'generic'),
+                           'i': ('integer', 'signedinteger', 'number', 'generic'), 'b': ('bool_', 'generic')}.get(c.kind, ())
+                    if b.__name__ in fam:
+                        return True
                 elif isinstance(c, TypeLike) and isinstance(b, TypeLike):
                     if c is b:
+                        return True
+                    fam = {'int64': ('integer', 'signedinteger', 'number', 'generic'), 'intp': ('integer', 'number', 'generic')}.get(c.__name__, ())
+                    if b.__name__ in fam:
                         return True
                 elif isinstance(c, (type, TypeLike, ClassRef)) and isinstance(b, (type, TypeLike, ClassRef)):
                     continue
@@ -1699,6 +1708,13 @@ def _unwrap0(fn):
 
 
 TYPE_HASH = 0x7c3a91         # every stand-in for a type hashes alike, so a set / dict lookup always reaches __eq__
+# The analysis does not tell a python float from a numpy float64 (complex / complex128).  Code that asks for the *exact*
+# type of an abstract number is analysed in two worlds - every such number a python scalar, every such number a numpy
+# scalar - and the property has to hold in both (engine.analyse runs the second world when the first one was consulted).
+TYPE_WORLD = 'python'
+TYPE_WORLD_USED = False
+_PY_NAMES = {'f': {'float'}, 'c': {'complex'}}
+_NP_NAMES = {'f': {'float64', 'double', 'float_'}, 'c': {'complex128', 'cdouble', 'complex_'}}
 
 
 class NumType(object):
@@ -1715,9 +1731,12 @@ class NumType(object):
             return self.kind == other.kind
         name = getattr(other, '__name__', None) or getattr(other, 'name', '')
         if other in (int, bool, str, list, tuple, dict, set, frozenset, type(None)) or \
-                name in ('str', 'list', 'tuple', 'dict', 'set', 'NoneType', 'bool', 'bool_', 'ndarray'):
-            return False
-        raise AnalysisError('the exact type of an abstract number (python float or which numpy scalar type) is compared with %r' % (other,))
+                name in ('str', 'list', 'tuple', 'dict', 'set', 'NoneType', 'bool', 'bool_', 'ndarray', 'int', 'integer', 'int64',
+                         'int32', 'int16', 'int8', 'intc', 'intp', 'uint8', 'uint16', 'uint32', 'uint64'):
+            return False          # (abstract numbers are floating point or complex values; integers are concrete in the analysis)
+        global TYPE_WORLD_USED
+        TYPE_WORLD_USED = True
+        return name in (_PY_NAMES if TYPE_WORLD == 'python' else _NP_NAMES)[self.kind]
 
     def __ne__(self, other):
         return not self.__eq__(other)
